@@ -215,6 +215,18 @@ def harmonic_lattice(ctx):
             except Exception as e:
                 ok, got = False, "%s: %s" % (type(e).__name__, e)
             ctx.ensure("2d:harmonic_set-gives-cross-ratio--1-on-the-line", ok, witness=dict(line=(p0, p1), params=(ta, tb, tc), got=got))
+    # positions of c on a fine grid (the auxiliary point of the construction must never coincide with c): lines missing the origin
+    for (cx, cy) in itertools.product([k / 20 for k in range(-19, 20, 2)], repeat=2):
+        for (u, v_) in ((1, 2), (2, -1)):
+            a, b, c = g.Point(cx + u, cy + v_), g.Point(cx + 2 * u, cy + 2 * v_), g.Point(cx, cy)
+            try:
+                d = harmonic_set(a, b, c)
+                cr = crossratio(a, b, c, d)
+                ok = abs(cr + 1) < 1e-6
+                got = float(np.real(cr))
+            except Exception as e:
+                ok, got = False, "%s: %s" % (type(e).__name__, e)
+            ctx.ensure("2d:harmonic_set-for-every-position-of-c-on-a-grid", ok, witness=dict(c=(cx, cy), direction=(u, v_), got=got))
     lines3 = [((0, 0, 0), (1, 0, 0)), ((0, 0, 0), (1, 1, 1)), ((1, 2, 3), (0, 1, -1)), ((0, 0, 2), (0, 3, 0)), ((1, 1, 0), (0, 0, 1)), ((-1, 4, 2), (2, 2, 2))]
     for (p0, d0) in lines3:
         P0, D = np.array(p0, dtype=float), np.array(d0, dtype=float)
